@@ -2215,6 +2215,12 @@ func (w *walker) assign(lhs ast.Expr, rhs ast.Expr, s vset) vset {
 	if isPurePath(rhs) {
 		rc := strings.TrimPrefix(w.e.canon(rhs, w.sc, nil), "&")
 		if !strings.HasPrefix(rc, "#") && rc != "nil" && !prefixOf(p, rc) && !strings.HasPrefix(w.e.canon(rhs, w.sc, nil), "&") {
+			// … and x equals y
+			for i, a := range w.u.atoms {
+				if a == "eq("+p+","+rc+")" || a == "eq("+rc+","+p+")" {
+					s = w.u.assume(s, i, true)
+				}
+			}
 			for i, a := range w.u.atoms {
 				src := ""
 				if path, cst, ok := splitEqConst(a); ok && prefixOf(p, path) {
